@@ -1,53 +1,135 @@
-"""C05 (parse_error part) — what() / message() / position of the parse_error thrown by normal<Rule>::raise and raise_nested; nested exceptions."""
+"""C05 (parse_error part) — what the caller sees of the parse_error built by normal<Rule>::raise / raise_nested: what(), message(),
+position_string(), position_object(), and the nested exception of the try_catch_*_raise_nested family and of parse_nested.
+
+Complements props/C05.py, which replaces Control::raise / raise_nested by a stub control and therefore does not encode any of this code."""
 import os
 import vf
 
-LEVEL_TEXT = 'TODO'
-ASSUMPTIONS = []
+LEVEL_TEXT = (
+    'bounded symbolic model checking (CBMC on the ll2c translation of the clang -O1 IR) of the REAL normal< Rule >::raise and normal< Rule >::raise_nested '
+    '(normal.hpp), parse_error_template / parse_error_base constructors, what() (virtual call), message(), position_string(), position_object() '
+    '(parse_error.hpp, parse_error_base.hpp), internal::stream_to_string, operator<<( std::ostream&, const position& ) (position.hpp), '
+    'internal::extract_position, demangle< Rule >(), memory_input::position() (eager and lazy tracking), the libstdc++ inline code of std::string, '
+    'std::throw_with_nested / std::_Nested_exception / std::nested_exception::nested_ptr, and - through parse() with the default control `normal` - must<>, '
+    'try_catch_raise_nested, try_catch_any_raise_nested, try_catch_std_raise_nested, try_catch_type_raise_nested (internal/try_catch_raise_nested.hpp) and '
+    'parse_nested (parse.hpp).  Decided for all symbolic inputs within the bounds: '
+    '(a) normal< R >::raise( in ) for a rule with and a rule without error_message, on a memory_input< eager|lazy, lf_crlf, std::string > built with symbolic '
+    'initial byte/line/column and a symbolic source of 0..3 characters after consuming 0..N symbolic bytes (newlines included): the exception is a parse_error '
+    'and not a std::nested_exception; what() == source ":" decimal(line) ":" decimal(column) ": " message (numerals read back digit by digit by the oracle, '
+    'no leading zeros, nothing after the message); message() and position_string() are exactly the message and the source:line:column part of what() (offset '
+    'and length); position_object() is byte/line/column/source of the input at the time of the raise (independent recount); the message is the rule\'s '
+    'error_message or "parse error matching " + demangle< Rule >(); '
+    '(b) normal< R >::raise_nested( am ), am a position with symbolic byte/line/column/source, called outside any handler, inside the handler of a foreign '
+    'exception and inside the handler of a parse_error: the exception is a parse_error with the same obligations for am AND a std::nested_exception whose '
+    'nested_ptr() is null / rethrows exactly the object being handled (same address, same content: foreign id, resp. what()/message()/position of the inner '
+    'parse_error); '
+    '(c) parse< seq< star< one< p, \\n > >, try_catch_*_raise_nested< G > > > over symbolic bytes, G := a ( d [action throws a foreign exception] | must< c > ) with and '
+    'without error_message on G: result/consumption when nothing is thrown; when must<> fails or the action throws, exactly the exception types the family names '
+    'are converted: the caller sees a parse_error for G at the position where G began (what()/message()/position as above) that is a nested_exception whose '
+    'nested exception is the original one unchanged (inner parse_error of the must<> with its own message and position after the `a`; foreign id = byte '
+    'position of the action); all other exceptions reach the caller unchanged and not nested; (d) the same through parse_nested( am, in ) with a symbolic ambient '
+    'position (catches std::exception).  Translation validation compares the stub-based translated unit with the g++ build against the GENUINE libstdc++ '
+    '(std::ostringstream, std::runtime_error, exception_ptr, nested_exception) on 20000 random inputs per query; counterexamples are replayed on that build.')
+
+ASSUMPTIONS = [
+    'C05_perr: std::ostream / std::ostringstream are replaced, in the clang (IR) builds only, by the array-backed stand-ins lib/stubstream/{ostream,sstream} '
+    '(append-only buffer of 32 characters - exceeding it is reported -; operator<< for char, const char*, const std::string& appends verbatim, for unsigned long '
+    'prints decimal without sign, grouping or leading zeros; str() returns the characters written); PEGTL\'s operator<<( std::ostream&, const position& ) and '
+    'stream_to_string are compiled unchanged against them.  The g++ build used for translation validation and replay uses the genuine libstdc++ streams, so every '
+    'run compares the stand-ins with the real library ("C" locale, default stream state)',
+    'C05_perr: out-of-line libstdc++ 12 functions are C models (harness/c05_perr_models.h, lib/models.h), validated the same way: std::runtime_error '
+    '(const std::string& / copy / move constructors, destructor, what(): the message is a NUL-terminated copy in a 48/64-byte buffer, longer messages are reported; '
+    'copies share it; never freed), std::string::_M_create/_M_append/_M_mutate/_M_replace on the real SSO layout (heap buffers are objects of constant size 64, a '
+    'larger request is reported; appending within the capacity of a heap buffer is reported; doubling growth policy), std::exception_ptr::_M_addref/_M_release '
+    '(no-ops: exception objects are never freed in the lowered exception model), std::current_exception (innermost exception being handled, or null), '
+    'std::rethrow_exception (throws the same object again with its original dynamic type), std::nested_exception::~nested_exception (no-op), strlen, '
+    '__assert_fail (reported), operator delete.  Allocation never fails',
+    'C05_perr: exception handling is lowered by ll2c (--eh-nested): pending-exception flag; handlers are selected by the static inheritance graph read from the '
+    'type_info initialisers in the IR, including multiple inheritance (__vmi_class_type_info) with the base-class offset applied to the pointer the handler '
+    'receives; a stack of exceptions being handled (pushed by __cxa_begin_catch, popped by __cxa_end_catch) answers current_exception and `throw;`; the dynamic '
+    'type of the last 8 thrown objects is remembered for rethrow_exception; exception objects are typed allocations (--typed-exc) and are never destroyed '
+    '(destructors of exception objects, reference counts and std::terminate paths are not modelled).  Virtual calls (what()) are resolved by comparing the '
+    'function pointer loaded from the object\'s virtual table with the functions stored in the virtual tables of the module (--vcall); any other target is reported',
+    'C05_perr: bounds - input bytes N = 3 (quick) / 4 (thorough); initial byte, line, column (raise) and ambient byte, line, column (raise_nested, parse_nested) in '
+    '0..99 / 0..9999 (line and column of an input >= 1: memory_input asserts it), so numerals have 1..3 / 1..5 digits; source: 0..3 arbitrary non-NUL characters '
+    '(a NUL inside the source truncates what() as a C string: outside the claim); message texts: the three error_message constants of the wrapper TU and the '
+    'default message of the rules c05p_rd / c05p_g / c05p_ptop (28..30 characters); what() therefore has at most 47 characters.  Longer sources, larger counters '
+    'and longer messages run through the same code (std::string growth, the digit loop) but are outside the claim',
+    'C05_perr: the default message is compared with "parse error matching " followed by demangle< Rule >() as evaluated by the SAME build through a wrapper '
+    '(clang: compile-time constant from __PRETTY_FUNCTION__; g++ real build: its own spelling), and the name must be non-empty; demangle itself is not specified here',
+    'C05_perr: dynamic type: "is a parse_error" / "is a std::nested_exception" / "is not a nested_exception" are decided by handlers (catch by reference), not by typeid; '
+    'identity of the nested exception is compared by address for raise_nested called directly (the wrapper knows the object being handled) and by content '
+    '(what(), message(), position, foreign id) through parse() / parse_nested()',
+    'C05_perr: tracking_mode::eager inputs in the rule queries; eol::lf_crlf; ambient type of raise_nested is tao::pegtl::position (what try_catch_raise_nested '
+    'passes); Source = std::string; inputs of tokens (extract_position third branch) are not covered',
+]
 
 STUB = os.path.join(vf.LIB, 'stubstream')
 MODELS = os.path.join(vf.VERIF, 'harness', 'c05_perr_models.h')
 S_ = 'x__ZNSt7__cxx1112basic_stringIcSt11char_traitsIcESaIcEE'
-# loops of the harness and of the models (names under this check's control) get their exact bounds; the global --unwind of a query is the bound for
-# the loops of the code under test (digit loops of the formatting, bump, copy loops); unwinding assertions apply to all of them
-HLOOPS = (['harness.%d:100' % i for i in range(8)] +
-          ['x_strlen.0:50', 'exact_alloc_n.0:12', 'read_dec.0:24', 'advance.0:12', 'check_record.0:50', 'check_record.1:50', 'check_record.2:50',
-           'obs_record.0:50', 'obs_record.1:50', 'expected_message.0:50', 'expected_message.1:50', 'expected_message.2:50', 'draw_source.0:8',
-           '__exc_type_of.0:10', 'w_name.0:18',
-           S_ + '9_M_appendEPKcm.0:66', S_ + '9_M_appendEPKcm.1:18', S_ + '9_M_appendEPKcm.2:66', S_ + '9_M_appendEPKcm.3:66',
-           S_ + '9_M_mutateEmmPKcm.0:66', S_ + '9_M_mutateEmmPKcm.1:66', S_ + '9_M_mutateEmmPKcm.2:66',
-           S_ + '10_M_replaceEmmPKcm.0:66', S_ + '10_M_replaceEmmPKcm.1:66',
-           'x__ZNSt13runtime_errorC2ERKNSt7__cxx1112basic_stringIcSt11char_traitsIcESaIcEEE.0:66'])
-LL2C = ['--vcall', '--eh-nested', '--inline-gep', '--typed-exc', '--split-store', '64', '--include', MODELS]
+FAM = ['try_catch_raise_nested', 'try_catch_any_raise_nested', 'try_catch_std_raise_nested', 'try_catch_type_raise_nested<foreign>', 'try_catch_type_raise_nested<parse_error>']
 
 
 def plan(ctx):
     cpp = os.path.join(vf.VERIF, 'harness', 'c05_perr.cpp')
     h = os.path.join(vf.VERIF, 'harness', 'c05_perr.c')
     quick = ctx.quick()
+    N = 3 if quick else 4
+    CMAX = 99 if quick else 9999
+    MAXDIG = len(str(CMAX + N))
+    CAP = 48 if quick else 64          # what() buffer / constant-offset window of the std::string models (longer strings are reported)
+    base = {'C05P_N': N, 'C05P_CMAX': CMAX, 'C05P_MAXDIG': MAXDIG, 'C05P_NSRC': 3, 'C05P_WHAT_CAP': CAP, 'VF_STRING_SPLIT_STORES': CAP}
+    bnd = {'input_bytes': N, 'initial/ambient byte, line, column': '0..%d (line, column of an input >= 1)' % CMAX, 'digits per numeral': '1..%d' % MAXDIG,
+           'source': '0..3 arbitrary non-NUL characters', 'what() capacity of the models': CAP - 1}
+    # loops of the harness and of the models (names under this check's control) get their exact bounds; the global --unwind of a query is the bound for
+    # the loops of the code under test (digit loops of the formatting, bump, star, copy loops); unwinding assertions apply to all of them
+    C1 = CAP + 2
+    hloops = (['harness.%d:100' % i for i in range(8)] +
+              ['x_strlen.0:%d' % C1, 'exact_alloc_n.0:12', 'read_dec.0:24', 'advance.0:12', 'check_record.0:50', 'check_record.1:50', 'check_record.2:50',
+               'obs_record.0:50', 'obs_record.1:50', 'expected_message.0:50', 'expected_message.1:50', 'expected_message.2:50', 'draw_source.0:8',
+               '__exc_type_of.0:10', 'w_name.0:18', 'vf_memcpy.0:18',
+               S_ + '9_M_appendEPKcm.0:%d' % C1, S_ + '9_M_appendEPKcm.1:18', S_ + '9_M_appendEPKcm.2:%d' % C1, S_ + '9_M_appendEPKcm.3:%d' % C1,
+               S_ + '9_M_mutateEmmPKcm.0:%d' % C1, S_ + '9_M_mutateEmmPKcm.1:%d' % C1, S_ + '9_M_mutateEmmPKcm.2:%d' % C1,
+               S_ + '10_M_replaceEmmPKcm.0:%d' % C1, S_ + '10_M_replaceEmmPKcm.1:%d' % C1,
+               'x__ZNSt13runtime_errorC2ERKNSt7__cxx1112basic_stringIcSt11char_traitsIcESaIcEEE.0:%d' % C1])
+    ll2c = ['--vcall', '--eh-nested', '--inline-gep', '--typed-exc', '--split-store', str(CAP), '--include', MODELS]
+    K = max(MAXDIG, N, 3) + 2
     qs = []
 
     def unit(group, msg, extra=()):
-        name = 'c05p_%s_%s%s' % (group.lower(), 'msg' if msg else 'default', ''.join('_' + e.split('=')[0].replace('C05P_', '').lower() + (e.split('=')[1] if '=' in e else '') for e in extra))
-        return ctx.unit(name, cpp=cpp, cxxflags=['-I', STUB, '-DC05P_' + group, '-DC05P_WITH_MSG=%d' % msg] + ['-D' + e for e in extra],
-                        ll2c=LL2C)
+        name = 'c05p_%s_%s%s' % (group.lower(), 'msg' if msg else 'default', ''.join('_' + e.replace('C05P_', '').replace('=', '').lower() for e in extra))
+        return ctx.unit(name, cpp=cpp, cxxflags=['-I', STUB, '-DC05P_' + group, '-DC05P_WITH_MSG=%d' % msg] + ['-D' + e for e in extra], ll2c=ll2c)
 
+    def mname(msg):
+        return 'error_message' if msg else 'default_message'
+
+    # (a) normal< R >::raise( in )
     for msg in (1, 0):
-        d = {'C05P_RAISE': 1, 'C05P_WITH_MSG': msg}
-        qs.append(vf.Query('raise/%s/eager' % ('error_message' if msg else 'default_message'), unit('RAISE', msg), h, defines=d, unwind=5, unwindset=HLOOPS + ['vf_memcpy.0:13'], mem_gb=3,
-                           bounds={}, note='normal<R>::raise( in )'))
+        for lazy in (0, 1):
+            if quick and lazy and not msg:
+                continue
+            d = dict(base, C05P_RAISE=1, C05P_WITH_MSG=msg)
+            qs.append(vf.Query('raise/%s/%s' % (mname(msg), 'lazy' if lazy else 'eager'), unit('RAISE', msg, ['C05P_LAZY=1'] if lazy else []), h, defines=d,
+                               unwind=K, unwindset=hloops, mem_gb=3, bounds=dict(bnd, tracking='lazy' if lazy else 'eager', bytes_consumed_before_the_raise='0..%d' % N),
+                               note='normal< R >::raise( in ): parse_error, what() == source:line:column: message, message(), position_string(), position_object()'))
+    # (b) normal< R >::raise_nested( am )
     for msg in (1, 0):
-        for mode in ('none', 'foreign', 'perr'):
-            d = {'C05P_NESTED': 1, 'C05P_WITH_MSG': msg}
-            qs.append(vf.Query('raise_nested/%s/%s' % ('error_message' if msg else 'default_message', mode), unit('NESTED', msg), h, defines=d, cbmc_defines={'VF_SPLIT': 1, 'V_' + mode: 1},
-                               unwind=5, unwindset=HLOOPS + ['vf_memcpy.0:18'], mem_gb=3, bounds={}, note='normal<R>::raise_nested( am )'))
-    FAM = ['try_catch_raise_nested', 'try_catch_any_raise_nested', 'try_catch_std_raise_nested', 'try_catch_type_raise_nested<foreign>', 'try_catch_type_raise_nested<parse_error>']
-    for msg in (1, 0):
-        for fam in range(5):
-            d = {'C05P_RULES': 1, 'C05P_WITH_MSG': msg, 'C05P_FAMILY': fam}
-            qs.append(vf.Query('rules/%s/%s' % (FAM[fam], 'error_message' if msg else 'default_message'), unit('RULES', msg, ['C05P_FAMILY=%d' % fam]), h, defines=d,
-                               unwind=6, unwindset=HLOOPS + ['vf_memcpy.0:18'], mem_gb=4, bounds={}, note='parse< seq< star< one< p, \\n > >, %s< G > > >' % FAM[fam]))
-        d = {'C05P_PNESTED': 1, 'C05P_WITH_MSG': msg}
-        qs.append(vf.Query('parse_nested/%s' % ('error_message' if msg else 'default_message'), unit('PNESTED', msg), h, defines=d,
-                           unwind=6, unwindset=HLOOPS + ['vf_memcpy.0:18'], mem_gb=4, bounds={}, note='parse_nested< G >( am, in )'))
+        for mode, what in (('none', 'no exception being handled'), ('foreign', 'inside the handler of a foreign exception'), ('perr', 'inside the handler of a parse_error')):
+            d = dict(base, C05P_NESTED=1, C05P_WITH_MSG=msg)
+            qs.append(vf.Query('raise_nested/%s/%s' % (mname(msg), mode), unit('NESTED', msg), h, defines=d, cbmc_defines={'VF_SPLIT': 1, 'V_' + mode: 1},
+                               unwind=K, unwindset=hloops, mem_gb=3, bounds=dict(bnd, handled=what),
+                               note='normal< R >::raise_nested( am ): parse_error for am that is a std::nested_exception; nested_ptr() is exactly the exception being handled'))
+    # (c) the real rules under the default control, (d) parse_nested
+    rules = [(1, 1), (0, 0)] if quick else [(m, f) for m in (1, 0) for f in range(5)]
+    for msg, fam in rules:
+        d = dict(base, C05P_RULES=1, C05P_WITH_MSG=msg, C05P_FAMILY=fam)
+        qs.append(vf.Query('rules/%s/%s' % (FAM[fam], mname(msg)), unit('RULES', msg, ['C05P_FAMILY=%d' % fam]), h, defines=d,
+                           unwind=K + 1, unwindset=hloops, mem_gb=4, timeout=None if quick else 2400,
+                           bounds=dict(bnd, grammar='seq< star< one< p, \\n > >, %s< G > >, G := seq< one< a >, sor< d [action throws], must< c > > >' % FAM[fam]),
+                           note='what the caller of parse() sees: converted (nested) or unchanged exception, position where the guarded rule began'))
+    for msg in ((0,) if quick else (1, 0)):
+        d = dict(base, C05P_PNESTED=1, C05P_WITH_MSG=msg)
+        qs.append(vf.Query('parse_nested/%s' % mname(msg), unit('PNESTED', msg), h, defines=d, unwind=K + 1, unwindset=hloops, mem_gb=4, timeout=None if quick else 2400,
+                           bounds=dict(bnd, grammar='seq< star< one< p, \\n > >, G >', ambient='position( byte, line, column, source ) symbolic'),
+                           note='what the caller of parse_nested( am, in ) sees'))
     return qs
